@@ -312,21 +312,35 @@ func (s *IndexedState) add(ctx *Context, id string, x Map) (string, map[string]i
 	// If we are overwriting a rule, then that rule's pattern has
 	// to leave the rule index -- whatever we are about to store
 	// under this id.
+	//
+	// Until the new fact is in, the previous one is still what
+	// is stored under this id: if we have to give up below, its
+	// rule goes back into the index ('unindexed').
+	var unindexed map[string]interface{}
 	if previous, have := s.IdToFact[id]; have {
 		if previousRule, _ := ExtractRule(ctx, previous, false); previousRule != nil {
 			if err = s.unindexRule(ctx, id, previousRule); err != nil {
 				return "", nil, err
 			}
+			if _, scheduled := previousRule["schedule"]; !scheduled {
+				unindexed = previousRule
+			}
 		}
 	}
 
+	indexed := false
 	if rule != nil {
 		// ToDo: Metric(ctx, "RuleUpdated", "location", s.Name, "ruleId", id)
 		Log(DEBUG, ctx, "IndexedState.add", "state", s.Name, "rule", rule, "ruleId", id)
 		if _, scheduled := rule["schedule"]; !scheduled {
 			if err = s.indexRule(ctx, id, rule); err != nil {
+				s.unindexRule(ctx, id, rule)
+				if unindexed != nil {
+					s.indexRule(ctx, id, unindexed)
+				}
 				return "", nil, err
 			}
+			indexed = true
 		}
 	}
 
@@ -338,6 +352,12 @@ func (s *IndexedState) add(ctx *Context, id string, x Map) (string, map[string]i
 		if err != nil {
 			Log(ERROR, ctx, "IndexedState.add", "state", s.Name, "error", err,
 				"when", "addHook")
+			if indexed {
+				s.unindexRule(ctx, id, rule)
+			}
+			if unindexed != nil {
+				s.indexRule(ctx, id, unindexed)
+			}
 			return "", nil, err
 		}
 	}
